@@ -58,6 +58,12 @@ func c04Tags(r *core.Rand, k int) c04Tag {
 		w := [][2]string{{"{% spaceless %}", "{% endspaceless %}"}, {"{% apply spaceless %}", "{% endapply %}"}, {"{% apply raw %}", "{% endapply %}"}}[r.Intn(3)]
 		return c04Tag{w[0] + body + w[1], body}
 	case 0, 1, 2:
+		if core.Hash64(m, fmt.Sprint(k), "literal-with-a-delimiter")%5 == 0 {
+			// a string literal inside the tag that spells a delimiter of another kind: it is part of the expression, and the
+			// text around the tag is text as before
+			return []c04Tag{{"{{ '{#' }}", "{#"}, {"{{ '{%' }}", "{%"}, {"{% set o" + fmt.Sprint(k%3) + " = '{{' %}", ""}, {"{{ '#}' ~ '{#' }}", "#}{#"}, {"{% if '{{' %}" + m + "{% endif %}", m},
+				{"{{ \"{%\" ~ v0 }}", "{%V0v"}, {"{{ ['{#', '{{']|join }}", "{#{{"}}[(k+len(m))%7]
+		}
 		return c04Tag{"{{ v" + fmt.Sprint(k%4) + " }}", "V" + fmt.Sprint(k%4) + "v"}
 	case 3:
 		return c04Tag{"{% if yes %}" + m + "{% endif %}", m}
